@@ -32,6 +32,7 @@ the real lines):
   N10 L = [] ; for T in IT: L.append(E)  ->  L = [E for T in IT]  (single-statement body, loop variables unused afterwards).
   N11 after a helper was unfolded: 'text {}'.format('literal') and 'a' + 'b' of literals are folded
       (an SQL statement assembled from a literal table name becomes a literal statement again).
+  N12 a, b = (x, y) -> a = x ; b = y  when no target occurs on the right.
   N3  keyword arguments that name the next positional parameter of a function
       of the repository become positional  (done by Repo once all modules are
       parsed).
@@ -492,6 +493,32 @@ def fold_constant_formats(tree):
     return n
 
 
+def split_tuple_assignments(fnode):
+    """N12: a, b = (x, y) -> a = x ; b = y   when no target name occurs in any right-hand element."""
+    n = 0
+    for block in list(_blocks(fnode)):
+        i = 0
+        while i < len(block):
+            st = block[i]
+            if isinstance(st, ast.Assign) and len(st.targets) == 1 and isinstance(st.targets[0], (ast.Tuple, ast.List)) \
+                    and isinstance(st.value, (ast.Tuple, ast.List)) and len(st.targets[0].elts) == len(st.value.elts) \
+                    and all(isinstance(t, ast.Name) for t in st.targets[0].elts) and not any(isinstance(v, ast.Starred) for v in st.value.elts):
+                tn = {t.id for t in st.targets[0].elts}
+                rn = {x.id for v in st.value.elts for x in ast.walk(v) if isinstance(x, ast.Name)}
+                if len(tn) == len(st.targets[0].elts) and not (tn & rn):
+                    news = []
+                    for t, v in zip(st.targets[0].elts, st.value.elts):
+                        a = ast.Assign(targets=[t], value=v)
+                        ast.copy_location(a, st)
+                        news.append(a)
+                    block[i:i + 1] = news
+                    n += 1
+                    i += len(news)
+                    continue
+            i += 1
+    return n
+
+
 def expand_star_tuples(fnode):
     """N9: f(a, *t) with t bound once to a tuple / list literal of stable elements -> f(a, e1, e2, ...)."""
     own, nested = _own_nodes(fnode)
@@ -552,9 +579,10 @@ def normalize_module(tree, modname=None, foreign=None):
             loops_to_comprehensions(node)
             for _k in range(3):
                 a_ = inline_temporaries(node)
+                c_ = split_tuple_assignments(node)
                 b_ = propagate_aliases(node)
                 n_inl += a_ + b_
-                if not (a_ or b_):
+                if not (a_ or b_ or c_):
                     break
     if n_h:
         fold_constant_formats(tree)       # literal arguments that arrived by unfolding a helper
